@@ -313,7 +313,6 @@ def _filter_function(filter):
     def_filter = _generate_filter_in_python(parse_filter(filter)._head, [])
     fun_name = "_gen_hsfilter_" + str(_id_function)
     function_template = "def %s(_grid, _entity):\n  return " % fun_name + "".join(def_filter)
-    print("\nGenerate:\n# " + filter + "\n" + function_template)  # FIXME: debug
     _id_function += 1
     return _FnWrapper(fun_name, function_template)
 
